@@ -353,6 +353,11 @@ def check_program(data: dict, lab: Labels) -> None:
         _probes(after)
 
     def _probes(after: str) -> None:
+        # the inherited mashumaro entry point (takes no options at all) sees the default state as well;
+        # asked first, before any option-less pyoak call could reset anything
+        got_native = ordered(probe.to_dict())
+        require(got_native == ref_probe, "options-leaked-into-later-serialization",
+                f"after {after}, to_dict(): {first_difference(json.loads(got_native), json.loads(ref_probe))}")
         got = ordered(probe.as_dict())
         require(got == ref_probe, "options-leaked-into-later-serialization",
                 f"after {after}: {first_difference(json.loads(got), json.loads(ref_probe))}")
@@ -479,7 +484,7 @@ DEPROBE_SPEC = {
 
 
 def st_program(ctx: Ctx):
-    g = T.TreeGen(leaves=ctx.pick(6, 9), origin_rate=0.5, servals=True, frozensets=False, bombs=True,
+    g = T.TreeGen(leaves=ctx.pick(6, 9), origin_rate=0.5, servals=True, frozensets=False, bombs=True, rev_sources=True,
                   falsy=False, wide=False)
     small = st.integers(0, 40)
     mask = st.one_of(st.integers(0, 127), st.sampled_from([O_SKIP, O_SORT, O_EXPL, O_TEST, O_INDEX, O_DIALECT, 0, O_SORT | O_SKIP,
